@@ -753,6 +753,27 @@ impl Hist {
         }
     }
 
+    /// Close instruction of position `i`; for a bundled position one time in three it names ANOTHER bundle as
+    /// `position_bundle` (preferring one that has the same index open): that must fail.
+    fn close_ix_maybe_foreign_bundle(&mut self, w: &mut World, i: usize, acc: &mut Acc) -> Ix {
+        let ix = w.close_position_ix(i);
+        if let PosKind::Bundled { bundle_mint, index } = w.positions[i].kind.clone() {
+            if rnd::chance(&mut w.r, 1, 3) {
+                let others: Vec<Pubkey> = self.bundles.iter().map(|(m, _, _)| *m).filter(|m| *m != bundle_mint).collect();
+                let same_index: Vec<Pubkey> = others.iter().copied().filter(|m| w.bank.get(&b::pda_bundled_position_u16(*m, index).0).is_some()).collect();
+                let pick = if !same_index.is_empty() { Some(*rnd::pick(&mut w.r, &same_index)) } else if !others.is_empty() { Some(*rnd::pick(&mut w.r, &others)) } else { None };
+                if let Some(m) = pick {
+                    acc.count("close_bundled_position_naming_another_bundle");
+                    if !same_index.is_empty() {
+                        acc.count("close_bundled_position_naming_another_bundle_with_that_index_open");
+                    }
+                    return ix.with_key("position_bundle", b::pda_position_bundle(m).0);
+                }
+            }
+        }
+        ix
+    }
+
     pub fn op_lifecycle(&mut self, w: &mut World, p: usize, monitors: &mut [Box<dyn Monitor>], acc: &mut Acc) {
         let live = self.live_positions(w, p);
         if live.is_empty() {
@@ -763,7 +784,7 @@ impl Hist {
         match w.r.gen_range(0..4) {
             0 | 1 => {
                 // try to close (succeeds only when empty)
-                let ix = w.close_position_ix(i);
+                let ix = self.close_ix_maybe_foreign_bundle(w, i, acc);
                 let o = self.step(w, ix, monitors, acc);
                 if o.ok() {
                     w.positions[i].closed = true;
@@ -778,7 +799,7 @@ impl Hist {
                 }
                 let ix = w.collect_fees_ix(i, true);
                 self.step(w, ix, monitors, acc);
-                let ix = w.close_position_ix(i);
+                let ix = self.close_ix_maybe_foreign_bundle(w, i, acc);
                 let o = self.step(w, ix, monitors, acc);
                 if o.ok() {
                     w.positions[i].closed = true;
@@ -1052,7 +1073,7 @@ impl Hist {
                     0 => 0,
                     1 => 255,
                     2 => 256,
-                    3 => w.r.gen_range(0..8),
+                    3 | 4 | 5 => w.r.gen_range(0..4),
                     _ => w.r.gen_range(0..256),
                 };
                 let (lo, hi) = self.gen_range(w, p);
